@@ -124,8 +124,8 @@ Proof.
   cbn [w_closing cancel_heartbeat set_closed set_hb_cb set_need_reset set_ready set_pong_cb tr_closing sent closed].
   rewrite cwa_close. cbn [negb]. rewrite andb_false_r.
   destruct (tr_closing s); cbn [fst closed w_closing sent set_sent set_w_closing WInv].
-  - rewrite H1. repeat split; auto; discriminate.
-  - rewrite count_close_app, H1. cbn. repeat split; auto; try discriminate.
+  - repeat split; intros; try discriminate; try lia; auto.
+  - rewrite count_close_app, H1. cbn. repeat split; intros; try discriminate; try lia.
     rewrite ok_sent_app_nondata by reflexivity. assumption.
 Qed.
 
@@ -141,16 +141,17 @@ Ltac wire_simpl :=
 Lemma Inv_wire_ext s s' : wire s' = wire s -> Inv_wire s -> Inv_wire s'.
 Proof. unfold Inv_wire. intros ->. auto. Qed.
 
-Lemma close_read_loop_wire c fuel : forall s t k d, wire (close_read_loop c fuel s t k d) = wire s.
+Lemma close_read_loop_wire c buf : forall s t k d, wire (close_read_loop c buf s t k d) = wire s.
 Proof.
-  induction fuel; intros; cbn [close_read_loop]; [reflexivity|].
-  destruct (can_read_now s).
-  - pose proof (wire_read_from_buffer s) as W. destruct (read_from_buffer s) as [s1 r]. cbn [fst] in W.
-    destruct r as [m| | | |]; try (rewrite wire_close_exc; exact W).
-    destruct m; try (rewrite IHfuel; exact W).
-    rewrite wire_close_ret, wire_close_transport. exact W.
-  - destruct (q_waiter s); [apply wire_close_exc|]. rewrite wire_suspend. reflexivity.
+  induction buf as [|m rest IH]; intros; cbn [close_read_loop].
+  - destruct (q_eof s); [apply wire_close_exc|]. destruct (q_waiter s); [apply wire_close_exc|].
+    rewrite wire_suspend. reflexivity.
+  - cbn zeta. destruct m; try (rewrite IH; reflexivity).
+    rewrite wire_close_ret, wire_close_transport. reflexivity.
 Qed.
+
+Lemma close_read_resume_wire c s t k d : wire (close_read_resume c s t k d) = wire s.
+Proof. unfold close_read_resume. destruct (q_buf s); [apply wire_close_exc|apply close_read_loop_wire]. Qed.
 
 Lemma server_close_tail_wire c s t k : wire (server_close_tail c s t k) = wire s.
 Proof. unfold server_close_tail. destruct (closing s).
@@ -210,25 +211,28 @@ Proof.
   - cbn [lres_state]. eapply Inv_wire_ext; [|exact H]. rewrite wire_finish. destruct (c_side c); reflexivity.
 Qed.
 
-Lemma recv_loop_inv c fuel : forall s t, Inv_wire s -> Inv_wire (recv_loop c fuel s t).
+Lemma recv_loop_inv c buf : forall s t, Inv_wire s -> Inv_wire (recv_loop c buf s t).
 Proof.
-  induction fuel; intros s t H; cbn [recv_loop]; [exact H|].
-  destruct (waiting s); [eapply Inv_wire_ext; [apply wire_finish|assumption]|].
-  destruct (closed s).
-  { destruct (c_side c); [destruct (_ <=? _)|]; (eapply Inv_wire_ext; [|exact H]); rewrite wire_finish; reflexivity. }
-  destruct (closing s).
-  { destruct (c_side c); [eapply Inv_wire_ext; [apply wire_finish|assumption]|apply close_entry_inv; assumption]. }
-  cbn zeta. destruct (can_read_now _).
-  - pose proof (wire_read_from_buffer (set_waiting s true)) as W.
-    destruct (read_from_buffer (set_waiting s true)) as [s1 r]. cbn [fst] in W.
-    assert (H1 : Inv_wire (recv_finally s1)).
-    { eapply Inv_wire_ext; [|exact H]. rewrite wire_recv_finally, W. reflexivity. }
-    pose proof (recv_handle_inv c _ t r H1) as H2.
-    destruct (recv_handle c (recv_finally s1) t r); cbn [lres_state] in H2; [assumption|apply IHfuel; assumption].
-  - destruct (q_waiter _).
-    + apply close_entry_inv. eapply Inv_wire_ext; [|exact H].
-      destruct (c_side c); cbn; rewrite wire_recv_finally; reflexivity.
-    + eapply Inv_wire_ext; [|exact H]. rewrite wire_suspend. reflexivity.
+  induction buf as [|m rest IH]; intros s t H; cbn [recv_loop];
+  (destruct (waiting s); [eapply Inv_wire_ext; [apply wire_finish|assumption]|]);
+  (destruct (closed s);
+   [destruct (c_side c); [destruct (_ <=? _)|]; (eapply Inv_wire_ext; [|exact H]); rewrite wire_finish; reflexivity|]);
+  (destruct (closing s);
+   [destruct (c_side c); [eapply Inv_wire_ext; [apply wire_finish|assumption]|apply close_entry_inv; assumption]|]);
+  cbn zeta.
+  - destruct (q_eof _).
+    + assert (H1 : Inv_wire (recv_finally (set_waiting s true))).
+      { eapply Inv_wire_ext; [|exact H]. rewrite wire_recv_finally. reflexivity. }
+      match goal with |- context [recv_handle c ?s0 t ?r] => pose proof (recv_handle_inv c s0 t r H1) as H2;
+        destruct (recv_handle c s0 t r) end; exact H2.
+    + destruct (q_waiter _).
+      * apply close_entry_inv. eapply Inv_wire_ext; [|exact H].
+        transitivity (wire (recv_finally (set_waiting s true))); [reflexivity|rewrite wire_recv_finally; reflexivity].
+      * eapply Inv_wire_ext; [|exact H]. rewrite wire_suspend. reflexivity.
+  - assert (H1 : Inv_wire (recv_finally (set_q_buf (set_waiting s true) rest))).
+    { eapply Inv_wire_ext; [|exact H]. rewrite wire_recv_finally. reflexivity. }
+    pose proof (recv_handle_inv c _ t (RRMsg m) H1) as H2.
+    destruct (recv_handle c _ t (RRMsg m)); cbn [lres_state] in H2; [assumption|apply IH; assumption].
 Qed.
 
 Lemma start_op_inv c s t o : Inv_wire s -> Inv_wire (start_op c s t o).
@@ -260,14 +264,8 @@ Proof.
       * rewrite wire_close_exc. reflexivity.
       * rewrite wire_finish, wire_abnormal. reflexivity.
     + destruct fr; try (eapply Inv_wire_ext; [apply wire_close_exc|assumption]).
-      * pose proof (wire_read_from_buffer s) as W. destruct (read_from_buffer s) as [s1 r]. cbn [fst] in W.
-        eapply Inv_wire_ext; [|exact H]. rewrite <- W.
-        destruct r as [m| | | |]; try apply wire_close_exc.
-        destruct m; try apply close_read_loop_wire. rewrite wire_close_ret, wire_close_transport. reflexivity.
-      * pose proof (wire_read_from_buffer s) as W. destruct (read_from_buffer s) as [s1 r]. cbn [fst] in W.
-        eapply Inv_wire_ext; [|exact H]. rewrite <- W.
-        destruct r as [m| | | |]; try apply wire_close_exc.
-        destruct m; try apply close_read_loop_wire. rewrite wire_close_ret, wire_close_transport. reflexivity.
+      * eapply Inv_wire_ext; [apply close_read_resume_wire|assumption].
+      * eapply Inv_wire_ext; [apply close_read_resume_wire|assumption].
 Qed.
 
 Lemma ping_pong_exc_inv c s : Inv_wire s -> Inv_wire (ping_pong_exc c s).
